@@ -167,6 +167,9 @@ func (f *Frame) boundVar(name, typ string) (*Val, *Term) {
 		return &Val{K: VScalar, T: types.Typ[types.String], X: Var(name, StringS)}, nil
 	case "bool":
 		return boolVal(Var(name, BoolS)), nil
+	case "arr":
+		// an arbitrary byte array (for lemmas over spec functions)
+		return &Val{K: VScalar, X: Var(name, ArrayS(IntS, IntS))}, nil
 	case "byte":
 		v := Var(name, IntS)
 		return &Val{K: VScalar, T: types.Typ[types.Uint8], X: v}, And(Ge(v, IntLit(0)), Le(v, IntLit(255)))
